@@ -14,7 +14,8 @@ RULE = ("Every helper of nflows.utils is called on (a) an exhaustive grid: all s
         "[-64, 4200] for the predicates, and (b) Hypothesis-generated values/shapes/dtypes; each result is compared with a "
         "numpy reference written from the docstring and every tensor argument is compared bit-for-bit with a pre-call "
         "clone. Non-trivial: the tensor has >= 2 elements and the integer argument is >= 2, or (predicates) the argument is "
-        "not a plain positive int, or (searchsorted) an input sits exactly on a knot. Distinct = distinct case JSON.")
+        "not a plain positive int, or (searchsorted) an input sits exactly on a knot. List arguments (split_leading_dim shape) must come back "
+        "unchanged. Distinct = distinct case JSON.")
 ASSUMPTIONS = ["numpy repeat/reshape/sum/cbrt/slogdet/searchsorted are correct reference models",
                "searchsorted inputs within eps of the last knot but not equal to it are unspecified and not generated"]
 EXHAUSTIVE = {"quick": True, "thorough": True}
